@@ -1313,6 +1313,14 @@ func (w *lsWalker) checkLeaks(p token.Pos, what string) {
 	}
 }
 
+// who is executing: the function, or the `go func` literal in it
+func (w *lsWalker) who() string {
+	if w.unit != w.top.key {
+		return w.a.labels[w.unit] + w.label
+	}
+	return w.top.label + w.label
+}
+
 func (w *lsWalker) heldNames() []string {
 	var r []string
 	for _, h := range w.held {
@@ -1390,7 +1398,7 @@ func (w *lsWalker) wait(group string, p token.Pos) {
 		w.a.waitsD[w.unit] = map[string]bool{}
 	}
 	w.a.waitsD[w.unit][group] = true
-	w.a.out.waits = append(w.a.out.waits, lsWait{w.top.label + w.label, w.heldNames(), group, ps})
+	w.a.out.waits = append(w.a.out.waits, lsWait{w.who(), w.heldNames(), group, ps})
 }
 
 // this code unit is one of the threads the group covers
@@ -1453,7 +1461,7 @@ func (w *lsWalker) noteCall(c *ast.CallExpr) {
 			}
 			sort.Strings(gs)
 			for _, g := range gs {
-				w.a.out.waits = append(w.a.out.waits, lsWait{w.top.label + w.label + " -> " + k[strings.Index(k, "|")+1:] + w.a.chain(k, g, w.a.waitsD1), w.heldNames(), g, ps})
+				w.a.out.waits = append(w.a.out.waits, lsWait{w.who() + " -> " + k[strings.Index(k, "|")+1:] + w.a.chain(k, g, w.a.waitsD1), w.heldNames(), g, ps})
 			}
 		}
 		if w.a.pass == 2 && len(w.held) > 0 {
